@@ -49,25 +49,30 @@ typedef struct {
     uint8_t *buf_max;
 } Bitstrm;
 
-// Get m_cnt number of bits and update bffer pointers and offset.
-#define GET_BITS(bits, m_pu4_buf, bit_ofst, cur_word, nxt_word, m_cnt) \
-    {                                                                  \
-        bits = (cur_word << bit_ofst) >> (WORD_SIZE - m_cnt);          \
-        bit_ofst += m_cnt;                                             \
-        if (bit_ofst > WORD_SIZE) {                                    \
-            bits |= SHR(nxt_word, (DBL_WORD_SIZE - bit_ofst));         \
-        }                                                              \
-                                                                       \
-        if (bit_ofst >= WORD_SIZE) {                                   \
-            uint32_t pu4_word_tmp;                                     \
-            cur_word = nxt_word;                                       \
-            /* Getting the next word */                                \
-            pu4_word_tmp = *(m_pu4_buf++);                             \
-                                                                       \
-            bit_ofst -= WORD_SIZE;                                     \
-            /* Swapping little endian to big endian conversion*/       \
-            nxt_word = TO_BIG_ENDIAN(pu4_word_tmp);                    \
-        }                                                              \
+// Loads the big endian 32 bit word at p; bytes at or beyond end (the end of the Bitstream data) read as zero
+static INLINE uint32_t dec_bits_load_word(const uint8_t *p, const uint8_t *end) {
+    uint32_t word = 0;
+    for (int i = 0; i < 4; i++) word = (word << 8) | (((uintptr_t)(p + i) < (uintptr_t)end) ? p[i] : 0);
+    return word;
+}
+
+// Get m_cnt number of bits and update bffer pointers and offset. m_end is the end of the Bitstream data.
+#define GET_BITS(bits, m_pu4_buf, m_end, bit_ofst, cur_word, nxt_word, m_cnt) \
+    {                                                                         \
+        bits = (cur_word << bit_ofst) >> (WORD_SIZE - m_cnt);                 \
+        bit_ofst += m_cnt;                                                    \
+        if (bit_ofst > WORD_SIZE) {                                           \
+            bits |= SHR(nxt_word, (DBL_WORD_SIZE - bit_ofst));                \
+        }                                                                     \
+                                                                              \
+        if (bit_ofst >= WORD_SIZE) {                                          \
+            cur_word = nxt_word;                                              \
+            /* Getting the next word (big endian), never beyond the data */   \
+            nxt_word = dec_bits_load_word((const uint8_t *)(m_pu4_buf), m_end); \
+            (m_pu4_buf)++;                                                    \
+                                                                              \
+            bit_ofst -= WORD_SIZE;                                            \
+        }                                                                     \
     }
 
 void dec_bits_init(Bitstrm *bs, const uint8_t *data, size_t u4_numbytes);
